@@ -9,7 +9,7 @@ Definition bytes := list N.
 Definition byte_ok (b : N) : bool := b <? 256.
 Definition bytes_ok (bs : bytes) : bool := forallb byte_ok bs.
 
-Definition len (bs : bytes) : N := N.of_nat (length bs).
+Definition len {A} (bs : list A) : N := N.of_nat (length bs).
 
 Fixpoint bytes_eqb (a b : bytes) : bool :=
   match a, b with
